@@ -948,3 +948,133 @@ func runC04NoNarrowing(c *Ctx) {
 		c.OK("no 64-bit size is narrowed to int in the queue/batch package", "-", "no int(int64) conversion")
 	}
 }
+
+// ---------- C06.R30 (= C09.R30): a clone is made per mutating consumer ----------
+func init() { addRules("C06", runC06ClonePerConsumer); addRules("C09", runC06ClonePerConsumer) }
+
+func runC06ClonePerConsumer(c *Ctx) {
+	p := c.P
+	c.Rule("R30", "PROV", "every mutating consumer that does not get the original gets a copy of its own: where a fan-out hands a payload to consumers in a loop and that payload is the result of a copying call, the call is made inside the loop (once per consumer) – a copy taken before the loop is shared by all of them, and with three or more mutating consumers one pipeline's processor sees the changes of another's", 4)
+	pk := p.Pkg("internal/fanoutconsumer")
+	if pk == nil {
+		c.Anchor("internal/fanoutconsumer")
+		return
+	}
+	n := 0
+	for _, fn := range p.AllSrcFuncs(pk) {
+		if fn.Parent() != nil || fn.Signature.Recv() == nil || !strings.HasPrefix(fn.Name(), "Consume") {
+			continue
+		}
+		sites := 0
+		var bad ssa.Instruction
+		for _, ci := range calls(fn, func(ci ssa.CallInstruction) bool {
+			return ci.Common().IsInvoke() && strings.HasPrefix(ci.Common().Method.Name(), "Consume") && len(ci.Common().Args) == 2
+		}) {
+			hdr, body := innermostLoop(ci.Block())
+			if hdr == nil {
+				continue
+			}
+			// the payload handed on is (derived from) the result of a call of this package: a copy
+			for v := range backSlice(ci.Common().Args[1]) {
+				cl, ok := v.(*ssa.Call)
+				if !ok {
+					continue
+				}
+				sf := staticCalleeFn(cl)
+				if sf == nil || sf.Pkg == nil || sf.Pkg != fn.Pkg {
+					continue
+				}
+				sites++
+				if !(body[cl.Block()] || cl.Block() == hdr) {
+					bad = cl
+				}
+			}
+		}
+		if sites == 0 {
+			continue
+		}
+		n++
+		c.Check(bad == nil, "copies handed to consumers in a loop of "+fnName(fn)+" are made per consumer", p.Pos(fn.Pos()), "the copying call lies inside the loop", "the copy is taken once, before the loop ("+posOf(p, bad)+"), and handed to every consumer of the loop: with three mutating consumers behind one fan-out point the second sees what the first changed")
+	}
+	if n == 0 {
+		c.Undecided("fan-out loops that hand copies to consumers", "-", "none found")
+	}
+}
+
+// ---------- C09.R31: the cycle search marks a node before it descends ----------
+func init() { addRules("C09", runC09MarkBeforeDescend) }
+
+func runC09MarkBeforeDescend(c *Ctx) {
+	p := c.P
+	c.Rule("R31", "TERM", "the search for the cycle to report terminates on every cyclic configuration: a recursive walk over the component graph that keeps a visited set records the node it is at before it descends into a successor (the update of the set dominates every recursive call) – marking on the way back lets two cycles that share a pipeline send the walk round for ever, and the collector dies with a stack overflow instead of reporting `cycle detected`", 1)
+	pk := p.Pkg("service/internal/graph")
+	if pk == nil {
+		c.Anchor("service/internal/graph")
+		return
+	}
+	n := 0
+	for _, fn := range p.AllSrcFuncs(pk) {
+		if fn.Parent() == nil {
+			continue
+		}
+		// recursive through the variable that holds the closure: a call whose callee is loaded from a captured variable
+		// that the parent stores this very closure into
+		var rec []ssa.Instruction
+		allInstrs(fn, func(in ssa.Instruction) {
+			cl, ok := in.(*ssa.Call)
+			if !ok || cl.Call.IsInvoke() {
+				return
+			}
+			u, ok := cl.Call.Value.(*ssa.UnOp)
+			if !ok {
+				return
+			}
+			fv, ok := u.X.(*ssa.FreeVar)
+			if !ok {
+				return
+			}
+			if b := freeVarBinding(fv); b != nil {
+				if al, ok := b.(*ssa.Alloc); ok && al.Referrers() != nil {
+					for _, r := range *al.Referrers() {
+						if st, ok := r.(*ssa.Store); ok {
+							if mc, ok := st.Val.(*ssa.MakeClosure); ok && mc.Fn == ssa.Value(fn) {
+								rec = append(rec, cl)
+							}
+						}
+					}
+				}
+			}
+		})
+		if len(rec) == 0 {
+			continue
+		}
+		var marks []ssa.Instruction
+		allInstrs(fn, func(in ssa.Instruction) {
+			if mu, ok := in.(*ssa.MapUpdate); ok {
+				if k, ok := constBool(mu.Value); ok && k {
+					marks = append(marks, mu)
+				}
+			}
+		})
+		if len(marks) == 0 {
+			continue // no visited set: not this kind of walk
+		}
+		n++
+		ok := true
+		for _, r := range rec {
+			dom := false
+			for _, m := range marks {
+				if instrDominates(m, r) {
+					dom = true
+				}
+			}
+			if !dom {
+				ok = false
+			}
+		}
+		c.Check(ok, "recursive graph walk "+fnName(fn)+" marks a node before it descends", p.Pos(fn.Pos()), "the visited-set update dominates the recursive calls", "the node is recorded only after its successors were walked: two connector cycles that share a pipeline make the walk recurse without bound (fatal error: stack overflow) where `cycle detected` should be returned")
+	}
+	if n == 0 {
+		c.Undecided("recursive walk with a visited set in the graph package", "-", "not found")
+	}
+}
